@@ -50,6 +50,8 @@ def run(chk):
     )
     chk.trust("dict / OrderedDict preserve insertion order", "symx translation and exhaustive tables")
     chk.assume("the .pool and .phantom attributes of the input records are booleans")
+    aud.ctor_fields(chk, "C18.R3", REL, "CVR", ["phantom", "pool", "tally_pool", "votes", "id"],
+                    "the merge assigns the flags one after the other: what is read back is what was stored")
     from ..canon import inline_aliases
     fn = inline_aliases(chk.fn(REL, "CVR.merge_cvrs"))  # canonical form: `first = od[c.id]` style aliases substituted
     where = W("CVR.merge_cvrs")
